@@ -32,7 +32,7 @@ func verifDir() string {
 func newEngine() *Engine {
 	return &Engine{pkgs: map[string]*ssa.Package{}, cs: NewContracts(), heapSorts: map[string]heapSort{}, obls: map[string]*Obligation{},
 		srcCache: map[string][]string{}, strLits: map[string]string{}, unsup: map[string][]string{}, maxPaths: 4096, usedExt: map[string]bool{},
-		typeIDs: map[string]int{}, unknownCalls: map[string]bool{}, goSites: map[string][]*ssa.Go{}}
+		typeIDs: map[string]int{}, unknownCalls: map[string]bool{}, goSites: map[string][]*ssa.Go{}, rebound: map[string]string{}}
 }
 
 // load loads packages (import paths relative to the module, e.g. "rare/pkg/readahead") from the
@@ -95,7 +95,79 @@ func (e *Engine) load(pkgPaths []string) error {
 			}
 		}
 	}
+	e.bindFingerprints()
 	return nil
+}
+
+// bindFingerprints re-binds contracts carrying an `at "<text>"` fingerprint to the function of
+// their package whose source contains that text (closure ordinals such as init$5 shift when an
+// unrelated closure is added; the fingerprint does not).
+func (e *Engine) bindFingerprints() {
+	var names []string
+	for n, c := range e.cs.Funcs {
+		if c.At != "" && c.Kind == "func" {
+			names = append(names, n)
+		}
+	}
+	sort.Strings(names)
+	for _, n := range names {
+		c := e.cs.Funcs[n]
+		var hits []*ssa.Function
+		for _, f := range e.allFunctions(c.Pkg) {
+			syn := f.Syntax()
+			if syn == nil {
+				continue
+			}
+			p0, p1 := e.fset.Position(syn.Pos()), e.fset.Position(syn.End())
+			lines := e.fileLines(p0.Filename)
+			txt := ""
+			for l := p0.Line; l <= p1.Line && l-1 < len(lines); l++ {
+				txt += lines[l-1] + "\n"
+			}
+			if strings.Contains(txt, c.At) {
+				// prefer the innermost function containing the text
+				inner := false
+				for _, a := range f.AnonFuncs {
+					if as := a.Syntax(); as != nil {
+						q0, q1 := e.fset.Position(as.Pos()), e.fset.Position(as.End())
+						t2 := ""
+						for l := q0.Line; l <= q1.Line && l-1 < len(lines); l++ {
+							t2 += lines[l-1] + "\n"
+						}
+						if strings.Contains(t2, c.At) {
+							inner = true
+						}
+					}
+				}
+				if !inner {
+					hits = append(hits, f)
+				}
+			}
+		}
+		if len(hits) == 1 {
+			nn := funcFullName(hits[0])
+			if nn != n {
+				if _, clash := e.cs.Funcs[nn]; !clash {
+					delete(e.cs.Funcs, n)
+					c.Name = nn
+					e.cs.Funcs[nn] = c
+					e.rebound[n] = nn
+				}
+			}
+		}
+	}
+}
+
+func (e *Engine) fileLines(name string) []string {
+	lines, ok := e.srcCache[name]
+	if !ok {
+		data, err := os.ReadFile(name)
+		if err == nil {
+			lines = strings.Split(string(data), "\n")
+		}
+		e.srcCache[name] = lines
+	}
+	return lines
 }
 
 // allFunctions lists the functions (including closures and methods) of a package.
